@@ -9,6 +9,9 @@ structure Acc where
   k : Option (Float × Float × Float × Float × Float × Float) := none
   P : MProblem Float := { polar := false, nodeProps := #[], lineProps := #[], blockProps := #[], circProps := #[], labels := #[],
                           nodes := #[], els := #[], pbc := #[], bandwidth := 0 }
+  axi : Bool := false
+  ext : Float × Float × Float × Float := (0, 0, 0, 1e-6)
+  external : Array Bool := #[]
   bad : Bool := false
 
 def f (s : String) : Option Float := parseFloatTok s
@@ -19,9 +22,12 @@ def step (a : Acc) (line : String) : Acc :=
   | ["consts", c, deg, pi, ucm, c001, c0001] => match f c, f deg, f pi, f ucm, f c001, f c0001 with
     | some c, some deg, some pi, some ucm, some c001, some c0001 => { a with k := some (c, deg, pi, ucm, c001, c0001) }
     | _, _, _, _, _, _ => bad
-  | ["problem", polar, bw] => match bw.toNat? with
-    | some bw => { a with P := { a.P with polar := polar = "1", bandwidth := bw } }
+  | ["problem", polar, bw, axi] => match bw.toNat? with
+    | some bw => { a with P := { a.P with polar := polar = "1", bandwidth := bw }, axi := axi = "1" }
     | none => bad
+  | ["ext", ro, ri, zo, tiny] => match f ro, f ri, f zo, f tiny with
+    | some ro, some ri, some zo, some tiny => { a with ext := (ro, ri, zo, tiny) }
+    | _, _, _, _ => bad
   | ["np", jr, ji, ar] => match f jr, f ji, f ar with
     | some jr, some ji, some ar => { a with P := { a.P with nodeProps := a.P.nodeProps.push { Jre := jr, Jim := ji, Are := ar } } }
     | _, _, _ => bad
@@ -36,8 +42,9 @@ def step (a : Acc) (line : String) : Acc :=
   | ["cp", t, amps, dv] => match t.toNat?, f amps, f dv with
     | some t, some amps, some dv => { a with P := { a.P with circProps := a.P.circProps.push { typ := t, amps := amps, dvolts := dv } } }
     | _, _, _ => bad
-  | ["lab", ic, w, md] => match ic.toInt?, f md with
-    | some ic, some md => { a with P := { a.P with labels := a.P.labels.push { inCircuit := ic, wound := w = "1", magDir := md } } }
+  | ["lab", ic, w, md, ex] => match ic.toInt?, f md with
+    | some ic, some md => { a with P := { a.P with labels := a.P.labels.push { inCircuit := ic, wound := w = "1", magDir := md } },
+                                   external := a.external.push (ex = "1") }
     | _, _ => bad
   | ["n", x, y, bm] => match f x, f y, bm.toInt? with
     | some x, some y, some bm => { a with P := { a.P with nodes := a.P.nodes.push { x := x, y := y, bm := bm, cond := -1 } } }
@@ -63,8 +70,12 @@ def run (h out : IO.FS.Stream) : IO Unit := do
   let a ← readAll h {}
   match a.bad, a.k with
   | false, some (c, deg, pi, ucm, c001, c0001) =>
-    let L := assembleM { c := c, deg := deg, pi := pi, ucm := ucm, sqrt := Float.sqrt, sq := fun x => Float.pow x 2, cos := Float.cos,
-                         sin := Float.sin, atan2 := Float.atan2 } c001 c0001 a.P
+    let kc : MConsts Float := { c := c, deg := deg, pi := pi, ucm := ucm, sqrt := Float.sqrt, sq := fun x => Float.pow x 2, cos := Float.cos,
+                                sin := Float.sin, atan2 := Float.atan2 }
+    let L := if a.axi then
+        assembleMAxi kc { log := Float.log, abs := Float.abs, tiny := a.ext.2.2.2, extRo := a.ext.1, extRi := a.ext.2.1, extZo := a.ext.2.2.1,
+                          external := a.external } c001 c0001 a.P
+      else assembleM kc c001 c0001 a.P
     out.putStrLn s!"SYS real {L.n} {L.bdw}"
     for p in [0:L.n] do
       for (c, x) in L.rows.getD p [] do
